@@ -71,10 +71,38 @@ func vMkEntry(i, class int) vEntry {
 		vFSPut(e.name, src)
 		vParseResult(e.name, f, nil)
 		return e
-	case 2: // does not parse
-		e.name, e.content = base+"broken.go", "package p\nfunc {\n// @tag valid:\"required\"\n"
+	case 2: // does not parse: a complete annotated struct, then a syntax error; go/parser returns the partial AST with the error
+		good, f := vAnnotatedSrc("required", false)
+		e.name, e.content = base+"broken.go", good+"func {\n"
+		vFSPut(e.name, e.content)
+		vParseResult(e.name, f, errors.New(e.name+":5:6: expected 'IDENT', found '{'"))
+		return e
+	case 10: // does not parse at all
+		e.class = 2
+		e.name, e.content = base+"garbage.go", "package p\nfunc {\n// @tag valid:\"required\"\n"
 		vFSPut(e.name, e.content)
 		vParseResult(e.name, nil, errors.New("expected 'IDENT', found '{'"))
+		return e
+	case 11: // embedded field with a tag literal and an @tag comment, next to an annotated named field
+		val := vInjVal("emb" + base[2:])
+		src := "package p\ntype Base struct{}\ntype A struct {\n\tBase `json:\"b\"` // @tag valid:\"" + val + "\"\n\tX string `json:\"x\"` // @tag valid:\"" + val + "\"\n}\n"
+		want := "package p\ntype Base struct{}\ntype A struct {\n\tBase `json:\"b\" valid:\"" + val + "\"` // @tag valid:\"" + val + "\"\n\tX string `json:\"x\" valid:\"" + val + "\"` // @tag valid:\"" + val + "\"\n}\n"
+		f := &ast.File{Package: 1, Name: &ast.Ident{NamePos: 9, Name: "p"}}
+		off := func(sub string) token.Pos { return token.Pos(vIndex(src, sub) + 1) }
+		c1 := "// @tag valid:\"" + val + "\""
+		f.Decls = []ast.Decl{
+			&ast.GenDecl{TokPos: off("type Base"), Tok: token.TYPE, Specs: []ast.Spec{&ast.TypeSpec{Name: &ast.Ident{NamePos: off("Base struct"), Name: "Base"}, Type: &ast.StructType{Struct: off("struct{}"), Fields: &ast.FieldList{Opening: off("{}"), Closing: off("{}") + 1}}}}},
+			&ast.GenDecl{TokPos: off("type A"), Tok: token.TYPE, Specs: []ast.Spec{&ast.TypeSpec{Name: &ast.Ident{NamePos: off("A struct"), Name: "A"}, Type: &ast.StructType{Struct: off("struct {"), Fields: &ast.FieldList{Opening: off("{\n\tBase"), List: []*ast.Field{
+				{Type: &ast.Ident{NamePos: off("Base `"), Name: "Base"}, Tag: &ast.BasicLit{ValuePos: off("`json:\"b\"`"), Kind: token.STRING, Value: "`json:\"b\"`"},
+					Comment: &ast.CommentGroup{List: []*ast.Comment{{Slash: off(c1), Text: c1}}}},
+				{Names: []*ast.Ident{{NamePos: off("X string"), Name: "X"}}, Type: &ast.Ident{NamePos: off("string `json:\"x\""), Name: "string"}, Tag: &ast.BasicLit{ValuePos: off("`json:\"x\"`"), Kind: token.STRING, Value: "`json:\"x\"`"},
+					Comment: &ast.CommentGroup{List: []*ast.Comment{{Slash: token.Pos(vLastIndex(src, c1) + 1), Text: c1}}}},
+			}}}}}},
+		}
+		e.class = 4
+		e.name, e.content, e.want = base+"embedded.go", src, want
+		vFSPut(e.name, src)
+		vParseResult(e.name, f, nil)
 		return e
 	case 3: // valid, no annotations
 		src, f := vBuildSource("", []vStructSrc{{name: "A", fields: []vField{{name: "X", typ: "string", hasTag: true, tag: "json:\"x\"", comment: "// plain"}, {name: "Y", typ: "int"}}}}, "")
@@ -157,7 +185,7 @@ func vCheckEntry(tag string, e vEntry) {
 	}
 }
 
-const vNClasses = 10
+const vNClasses = 12
 
 func H_C19_file() {
 	vSym = true
@@ -205,6 +233,11 @@ func H_C19_glob() {
 	ok := vNoPanic(func() { _ = handlePatternFiles(vFSPath(pat)) })
 	vAssert(ok, "C19 handlePatternFiles: no crash")
 	for _, e := range es {
+		if pat == "d/*ann*" && vIndex(e.name, "ann") < 0 && e.class != 0 {
+			got, ok := vFSGet(e.name)
+			vAssert(ok && got == e.content && !vWritten(e.name), "C19 handlePatternFiles "+pat+": a file the pattern does not match is untouched")
+			continue
+		}
 		vCheckEntry("C19 handlePatternFiles "+pat, e)
 	}
 	vReach("end")
@@ -220,4 +253,24 @@ func H_C19_missing() {
 	vAssert(ok, "C19 missing inputs: no crash")
 	vAssert(len(vFSWrites()) == 0, "C19 missing inputs: nothing written")
 	vReach("end")
+}
+
+// vIndex / vLastIndex on concrete prefixes of possibly symbolic text: the searched marker is concrete and
+// occurs in the concrete skeleton, so plain loops over bytes suffice (symbolic bytes are compared too)
+func vIndex(s, sub string) int {
+	for i := 0; i+len(sub) <= len(s); i++ {
+		if s[i:i+len(sub)] == sub {
+			return i
+		}
+	}
+	return -1
+}
+
+func vLastIndex(s, sub string) int {
+	for i := len(s) - len(sub); i >= 0; i-- {
+		if s[i:i+len(sub)] == sub {
+			return i
+		}
+	}
+	return -1
 }
